@@ -93,6 +93,27 @@ Theorem c47_valve :
     valve_prop open ops (valve_run open s ops).
 Proof. exact valve_correct. Qed.
 
+(* Valve writer under concurrency (schedules).  Write = Lock; nil test;
+   underlying Write; Unlock.  Shut = Lock; writer = nil; Unlock.  For ANY number
+   of writer and shutter goroutines and EVERY interleaving of their steps:
+   whenever a Shut returns, every underlying Write that began has ended, and
+   afterwards no underlying Write begins or ends -- nothing reaches the
+   downstream once Shut has returned.  (Underlying Writes also never overlap:
+   valve_concurrent_serial.) *)
+Theorem c47_valve_concurrent :
+  forall (open : bool) (nw ns : nat) (sched : list nat),
+    trace_safe (cevs (crun (cinit open nw ns) sched)).
+Proof. exact valve_concurrent. Qed.
+
+Theorem c47_valve_concurrent_serial :
+  forall (open : bool) (nw ns : nat) (sched : list nat),
+    trace_serial (cevs (crun (cinit open nw ns) sched)) = true.
+Proof. exact valve_concurrent_serial. Qed.
+
+(* the checker used on observed event sequences decides that contract *)
+Theorem c47_trace_check_sound : forall tr, trace_ok tr = true -> trace_safe tr.
+Proof. exact trace_ok_safe. Qed.
+
 (* Multi closer: every closer is closed exactly once, in the order given, and
    the first error (if any) is the one returned. *)
 Theorem c47_multi_closer :
@@ -129,6 +150,17 @@ Example c47_examples :
   /\ mf_flush [ENil; ED 1; ED 2] = ([0; 1], ED 1).
 Proof. exact stream_examples. Qed.
 
+(* Non-vacuity for the concurrent valve: a writer enters the underlying Write,
+   a shutter tries (and waits), the write finishes, the shutter shuts, a second
+   writer is discarded; and an event sequence in which Shut returns while an
+   underlying Write is in flight is rejected by the checker. *)
+Example c47_valve_concurrent_example :
+  cevs (crun (cinit true 2 1) [0; 0; 0; 2; 2; 0; 0; 2; 2; 2; 1; 1; 1])
+    = [EvFwdBegin 0; EvFwdEnd 0; EvShutRet 2]
+  /\ trace_ok [EvFwdBegin 0; EvShutRet 2; EvFwdEnd 0] = false
+  /\ trace_ok [EvFwdBegin 0; EvFwdEnd 0; EvShutRet 2; EvFwdBegin 1] = false.
+Proof. exact valve_concurrent_examples. Qed.
+
 Print Assumptions c47_cutoff.
 Print Assumptions c47_cutoff_reliable.
 Print Assumptions c47_lines.
@@ -138,6 +170,9 @@ Print Assumptions c47_audit.
 Print Assumptions c47_passthrough_meaning.
 Print Assumptions c47_preempt.
 Print Assumptions c47_valve.
+Print Assumptions c47_valve_concurrent.
+Print Assumptions c47_valve_concurrent_serial.
+Print Assumptions c47_trace_check_sound.
 Print Assumptions c47_multi_closer.
 Print Assumptions c47_multi_flusher.
 Print Assumptions c47_check_sound.
